@@ -110,6 +110,10 @@ def run(chk):
     alg_forwarding.forwarding(chk, "C10", _PI)
     from props import backend_conformance
     backend_conformance.run(chk, "C10", names=('eig', 'eigh', 'argsort', 'sort', 'abs'))
+    # bounded stand-in: the real eig on concrete operators, including operators whose annotations the library inferred by algebra (the rule-level obligations take
+    # reported annotations as hypotheses; C05 owns their truth and lists open findings, so the combination is observed here on the property's own observable)
+    from props import native_diff
+    native_diff.run(chk, "C10")
     chk.trust("vcgen/idx.py: NumPy indexing primitives as index transformers, slice.indices contract")
     chk.trust("dependency contracts: xnp.eig(M) = (w, V) with M V = V diag(w), V invertible, w in unspecified order; xnp.eigh(M) the same with w real "
               "ascending and V unitary; xnp.argsort a sorting bijection (real: by value, complex: by an uninterpreted total order)")
